@@ -160,6 +160,15 @@ class WindEval(Evaluator):
                 return r
         return None
 
+    align_like = None      # callable(method name) -> bool: the method returns (rotated points, rotation)
+
+    def call(self, n):
+        f = n.func
+        if isinstance(f, ast.Attribute) and isinstance(f.value, ast.Name) and f.value.id == "self" and len(n.args) == 1 and not n.keywords \
+                and self.align_like is not None and self.align_like(f.attr):
+            return SV("tuple", items=[self.ev(n.args[0]), SV("rot")])
+        return super().call(n)
+
     def _mask(self, node):
         """(kind, array name, value of that array when the mask was taken) for `name == 0` / `name != 0`, inline or a local."""
         if isinstance(node, ast.Name) and node.id in self.masks:
@@ -234,9 +243,25 @@ class _W(WindEval):
         super().bind(t, v)
 
 
-def winding_parity(fn_node, points_name="points"):
+def winding_parity(fn_node, points_name="points", index=None, cls=None):
     """-> ('odd' | 'even' | 'mixed' | 'zero', description) of the per-edge term of the returned winding test."""
     ev = _W(points_name)
+    if index is not None and cls is not None:
+        def _align_like(name, _cache={}):
+            if name not in _cache:
+                from .index import FuncInfo
+                from .interp import Interp
+                m = cls.lookup(name)
+                ok = False
+                if isinstance(m, FuncInfo):
+                    try:
+                        v = Interp(index).run_entry(m, cls)["result"]
+                        ok = v is not None and v.items is not None and len(v.items) == 2 and "orth" in v.items[1].tags
+                    except Exception:
+                        ok = False
+                _cache[name] = ok
+            return _cache[name]
+        ev.align_like = _align_like
     body = [s for s in fn_node.body if not (isinstance(s, ast.Expr) and isinstance(s.value, ast.Constant))]
     # the returned expression `w != 0` / `w > 0` ...: judge the summed quantity w
     ret_node = None
